@@ -264,6 +264,10 @@ def oracle(case, out):
         if len(exp) != len(lines):
             viol.append("running-average file has %d lines, %d windows of %d values were completed" % (len(lines), len(exp), L_)); return viol
         for (st, v), (er, em, es) in zip(lines, exp):
+            if st != m["it0"] + er:
+                viol.append("running-average file: the line for the window completed at step %d (step %d of a run that started at step %d) is "
+                            "stamped with step %r" % (m["it0"] + er, er, m["it0"], st))
+                return viol
             if abs(v[0] - em) > 1e-9 * max(1.0, abs(em)) or abs(v[1] - es) > 1e-9 * max(1.0, abs(es)):
                 viol.append("running average at relative step %d: written (%r, %r), mean and sample standard deviation of the last %d values are (%r, %r)" % (st, v[0], v[1], L_, em, es))
                 return viol
